@@ -9,13 +9,8 @@
 (*    evaluated in integers scaled by 100 with every irrational rounded UP *)
 (*    (C(0)C(0) = 1/2, C(0)C(v) = 0.7072, else 1), through the absolute    *)
 (*    inverse colour matrix for three components;                          *)
-(*  - a coefficient-domain reference ENCODER (property C15, reverse        *)
-(*    direction): MCU traversal for sampling factors H,V in 1..2 (A.2),    *)
-(*    DC prediction with restart intervals (F.1.1.5.1, E.1.4), AC run /    *)
-(*    size coding with ZRL and EOB (F.1.2.2), Huffman coding (Annex C) and *)
-(*    byte stuffing (F.1.2.3).  It chooses quantised coefficients directly:*)
-(*    a JPEG stream is defined by its coefficients, no DCT is needed to    *)
-(*    produce a conformant one.                                            *)
+(* The coefficient-domain reference encoder of property C15 is module      *)
+(* JpegSeq.                                                                *)
 (***************************************************************************)
 EXTENDS Markers
 
